@@ -40,9 +40,13 @@ def scenarios(tier):
                                                  threads=[[sb('s', [bf('d/a')])], [bf('d/b')]]),
         'S8_concurrent_hash_reads': dict(t0=[['w', 'i', 'A']],
                                          threads=[[sb('r1', [q('readh', 'i')])], [sb('r2', [q('readh', 'i')], args=(2,))]]),
+        'S9_threads_inside_a_subbuild': dict(threads=[[dict(sb('par'), par=[[bf('d/a')], [bf('d/b', 'ra')]])], [bf('e/c')]]),
         'S10_failure_beside_query_of_other_dir': dict(t0=[['mkdir', 'u']], threads=[[bf('d/a', 'ra')], [q('is_dir', 'u'), bf('u/b')]]),
     }
     if tier != 'quick':
+        S['S9b_threads_inside_a_cached_subbuild'] = dict(
+            prep=[dict(sb('par'), par=[[bf('d/a')], [bf('d/b')]])], prep_mut=[['del', 'd/a']],
+            threads=[[dict(sb('par'), par=[[bf('d/a')], [bf('d/b')]])], [bf('d/c')]])
         S['S1x3_three_threads'] = dict(threads=[[bf('d/a')], [bf('d/b')], [bf('d/c', 'ra')]])
         S['S11_two_ops_each'] = dict(threads=[[bf('d/a'), bf('e/a')], [bf('e/b'), bf('d/b')]])
     return S
@@ -83,7 +87,10 @@ def work(ctx, task):
         return {'harness_error': 'scenario %s: default schedule not reproducible' % task['scenario'], 'task': task}
     completed = None
     capped = False
-    passes = [(bound, False) for bound in range(0, b + 1)] + [(1, True)]     # last: line-granularity audit
+    passes = [(bound, False) for bound in range(0, b + 1)]
+    nthreads = len(sc['threads']) + sum(len(op.get('par', [])) for t in sc['threads'] for op in t)
+    if nthreads <= 2 or task['tier'] != 'quick':
+        passes.append((1, True))     # last: line-granularity audit
     line_execs = 0
     for bound, line in passes:
         ex = sched.Explorer(lambda p: R.run_concurrent(sc, p, line=line), bound, deadline=deadline)
